@@ -499,4 +499,751 @@ theorem export_cuts_spec (instrs : List CInstr) (best : St) (b : Bool) (kind : S
     · exact ⟨(.cut i, pos), hmem, rfl⟩
     · exact ⟨(.marker q, pos), hmem, rfl⟩
 
+/-! ### separation invariants of the partition bookkeeping -/
+
+def rootL (root : List Nat) (w : Nat) : Nat := root.getD w w
+
+theorem rootOf_eq (s : St) (w : Nat) : s.rootOf w = rootL s.root w := rfl
+
+/-- structural invariants; they depend only on the root map, the wire counters and the no-merge clauses -/
+structure Inv2' (root : List Nat) (maxWires numWires : Nat) (noMerge : List (Nat × Nat)) : Prop where
+  root_len : root.length = maxWires
+  nw_le : numWires ≤ maxWires
+  root_le : ∀ w, rootL root w ≤ w
+  root_idem : ∀ w, rootL root (rootL root w) = rootL root w
+  points_old : ∀ w, numWires ≤ rootL root w → rootL root w = w   -- nobody points to an unallocated wire
+  fresh_root : ∀ w, numWires ≤ w → rootL root w = w              -- an unallocated wire is its own root
+  clause_lt : ∀ c ∈ noMerge, c.1 < numWires ∧ c.2 < numWires
+  sep : ∀ c ∈ noMerge, rootL root c.1 ≠ rootL root c.2
+
+def Inv2 (s : St) : Prop := Inv2' s.root s.maxWires s.numWires s.noMerge
+
+theorem rootL_range (n w : Nat) : rootL (List.range n) w = w := by
+  simp only [rootL, List.getD_eq_getElem?_getD]
+  by_cases hw : w < n
+  · simp [List.getElem?_range hw]
+  · have : (List.range n)[w]? = none := List.getElem?_eq_none (by simp; omega)
+    simp [this]
+
+theorem init_inv2 (n k : Nat) : Inv2 (St.init n k) := by
+  unfold Inv2
+  simp only [St.init]
+  exact ⟨by simp, by omega, fun w => by rw [rootL_range], fun w => by rw [rootL_range, rootL_range], fun w _ => rootL_range _ w,
+    fun w _ => rootL_range _ w, (fun c hc => by cases hc), (fun c hc => by cases hc)⟩
+
+theorem rootL_oob (root : List Nat) (w : Nat) (h : root.length ≤ w) : rootL root w = w := by
+  simp [rootL, List.getD_eq_getElem?_getD, List.getElem?_eq_none h]
+
+theorem rootL_map (root : List Nat) (f : Nat → Nat) (w : Nat) (hw : w < root.length) : rootL (root.map f) w = f (rootL root w) := by
+  simp [rootL, List.getD_eq_getElem?_getD, List.getElem?_map, List.getElem?_eq_getElem hw]
+
+/-- the root map after `merge_roots` -/
+theorem rootL_merge (root : List Nat) (mw nw : Nat) (nm : List (Nat × Nat)) (hi : Inv2' root mw nw nm) (a b w : Nat) (hlt : max a b < nw) :
+    rootL (root.map fun r => if r = max a b then min a b else r) w = if rootL root w = max a b then min a b else rootL root w := by
+  by_cases hw : w < root.length
+  · rw [rootL_map _ _ _ hw]
+  · have h1 := rootL_oob root w (not_lt.mp hw)
+    have h2 : rootL (root.map fun r => if r = max a b then min a b else r) w = w := rootL_oob _ w (by simpa using not_lt.mp hw)
+    rw [h2, h1]
+    have : w ≠ max a b := by
+      have := hi.nw_le; have := hi.root_len; omega
+    simp [this]
+
+theorem merge_inv2' (root : List Nat) (mw nw : Nat) (nm : List (Nat × Nat)) (hi : Inv2' root mw nw nm) (a b : Nat)
+    (ha : rootL root a = a) (hb : rootL root b = b) (hab : a ≠ b) (hlt : max a b < nw)
+    (hns : ∀ c ∈ nm, ¬ ((rootL root c.1 = a ∧ rootL root c.2 = b) ∨ (rootL root c.1 = b ∧ rootL root c.2 = a))) :
+    Inv2' (root.map fun r => if r = max a b then min a b else r) mw nw nm := by
+  have hr := rootL_merge root mw nw nm hi a b
+  have hmin_root : rootL root (min a b) = min a b := by
+    rcases le_total a b with h | h
+    · rw [min_eq_left h]; exact ha
+    · rw [min_eq_right h]; exact hb
+  have hmin_ne : min a b ≠ max a b := by
+    rcases le_total a b with h | h
+    · rw [min_eq_left h, max_eq_right h]; exact hab
+    · rw [min_eq_right h, max_eq_left h]; exact fun e => hab e.symm
+  have hmin_lt : min a b < nw := lt_of_le_of_lt (le_trans (min_le_left _ _) (le_max_left _ _)) hlt
+  refine ⟨by simp [hi.root_len], hi.nw_le, ?_, ?_, ?_, ?_, hi.clause_lt, ?_⟩
+  · intro w; rw [hr w hlt]; split
+    · rename_i h
+      have := hi.root_le w
+      have : min a b ≤ max a b := le_trans (min_le_left _ _) (le_max_left _ _)
+      omega
+    · exact hi.root_le w
+  · intro w
+    rw [hr w hlt]
+    split
+    · rw [hr _ hlt, hmin_root]; simp [hmin_ne]
+    · rename_i h
+      rw [hr _ hlt, hi.root_idem w]; simp [h]
+  · intro w hw
+    rw [hr w hlt] at hw ⊢
+    split at hw
+    · omega
+    · rename_i h
+      simp only [h, if_false]
+      exact hi.points_old w hw
+  · intro w hw
+    rw [hr w hlt, hi.fresh_root w hw]
+    have : w ≠ max a b := by omega
+    simp [this]
+  · intro c hc heq
+    rw [hr c.1 hlt, hr c.2 hlt] at heq
+    have hsep := hi.sep c hc
+    have hno := hns c hc
+    by_cases h1 : rootL root c.1 = max a b <;> by_cases h2 : rootL root c.2 = max a b
+    · exact hsep (by rw [h1, h2])
+    · simp only [h1, h2, if_true, if_false] at heq
+      apply hno
+      rcases le_total a b with h | h
+      · rw [min_eq_left h] at heq; rw [max_eq_right h] at h1
+        exact Or.inr ⟨h1, heq.symm⟩
+      · rw [min_eq_right h] at heq; rw [max_eq_left h] at h1
+        exact Or.inl ⟨h1, heq.symm⟩
+    · simp only [h1, h2, if_true, if_false] at heq
+      apply hno
+      rcases le_total a b with h | h
+      · rw [min_eq_left h] at heq; rw [max_eq_right h] at h2
+        exact Or.inl ⟨heq, h2⟩
+      · rw [min_eq_right h] at heq; rw [max_eq_left h] at h2
+        exact Or.inr ⟨heq, h2⟩
+    · simp only [h1, h2, if_false] at heq
+      exact hsep heq
+
+theorem newWire_inv2' (root : List Nat) (mw nw : Nat) (nm : List (Nat × Nat)) (hi : Inv2' root mw nw nm) (h : nw + 1 ≤ mw) :
+    Inv2' root mw (nw + 1) nm :=
+  ⟨hi.root_len, h, hi.root_le, hi.root_idem, fun w hw => hi.points_old w (by omega), fun w hw => hi.fresh_root w (by omega),
+   fun c hc => ⟨by have := (hi.clause_lt c hc).1; omega, by have := (hi.clause_lt c hc).2; omega⟩, hi.sep⟩
+
+theorem clause_inv2' (root : List Nat) (mw nw : Nat) (nm : List (Nat × Nat)) (hi : Inv2' root mw nw nm) (x y : Nat)
+    (hx : x < nw) (hy : y < nw) (hne : rootL root x ≠ rootL root y) : Inv2' root mw nw (nm ++ [(x, y)]) := by
+  refine ⟨hi.root_len, hi.nw_le, hi.root_le, hi.root_idem, hi.points_old, hi.fresh_root, ?_, ?_⟩
+  · intro c hc
+    rcases List.mem_append.1 hc with hc | hc
+    · exact hi.clause_lt c hc
+    · simp at hc; subst hc; exact ⟨hx, hy⟩
+  · intro c hc
+    rcases List.mem_append.1 hc with hc | hc
+    · exact hi.sep c hc
+    · simp at hc; subst hc; exact hne
+
+
+theorem forbidden_false_iff (s : St) (a b : Nat) : s.forbidden a b = false ↔
+    ∀ c ∈ s.noMerge, ¬ ((rootL s.root c.1 = a ∧ rootL s.root c.2 = b) ∨ (rootL s.root c.1 = b ∧ rootL s.root c.2 = a)) := by
+  unfold St.forbidden
+  rw [List.any_eq_false]
+  constructor
+  · intro h c hc hor
+    apply h c hc
+    simp only [Bool.or_eq_true, Bool.and_eq_true, beq_iff_eq]
+    exact hor
+  · intro h c hc hor
+    simp only [Bool.or_eq_true, Bool.and_eq_true, beq_iff_eq] at hor
+    exact h c hc hor
+
+theorem forbidden_self (s : St) (hi : Inv2 s) (r : Nat) : s.forbidden r r = false := by
+  rw [forbidden_false_iff]
+  intro c hc hor
+  have := hi.sep c hc
+  rcases hor with ⟨h1, h2⟩ | ⟨h1, h2⟩ <;> exact this (by rw [h1, h2])
+
+/-- every action keeps the separation invariants (given the bookkeeping invariants of `Inv`) -/
+theorem step_inv2 (cfg : Settings) (gates : List Gate) (W n : Nat)
+    (hq : ∀ g ∈ gates, g.qubits.getD 0 0 < n ∧ g.qubits.getD 1 0 < n)
+    (s t : St) (ns : List St) (hi : Inv W n s) (h2 : Inv2 s) (h : nextStates cfg gates W s = .ok ns) (ht : t ∈ ns) : Inv2 t := by
+  unfold nextStates at h
+  cases hg : gates[s.level]? with
+  | none => rw [hg] at h; injection h with h; subst h; cases ht
+  | some g =>
+    rw [hg] at h
+    simp only at h
+    split at h
+    · cases h
+    · injection h with h; subst h
+      have hmem : g ∈ gates := List.mem_of_getElem? hg
+      obtain ⟨hq1, hq2⟩ := hq g hmem
+      have hr1 := qroot_lt hi _ hq1
+      have hr2 := qroot_lt hi _ hq2
+      have hroot1 : rootL s.root (s.qroot (g.qubits.getD 0 0)) = s.qroot (g.qubits.getD 0 0) := h2.root_idem _
+      have hroot2 : rootL s.root (s.qroot (g.qubits.getD 1 0)) = s.qroot (g.qubits.getD 1 0) := h2.root_idem _
+      simp only [List.mem_filterMap] at ht
+      obtain ⟨a, ha, hat⟩ := ht
+      simp only [actionList, List.mem_append, List.mem_cons, List.not_mem_nil, or_false] at ha
+      rcases ha with (rfl | ha) | ha
+      · -- apply
+        unfold applyGate at hat
+        simp only at hat
+        split at hat
+        · cases hat
+        · split at hat
+          · cases hat
+          · rename_i hforb
+            injection hat with hat; subst hat
+            split
+            · rename_i hne
+              have hf : s.forbidden (s.qroot (g.qubits.getD 0 0)) (s.qroot (g.qubits.getD 1 0)) = false := by simpa using hforb
+              exact merge_inv2' s.root s.maxWires s.numWires s.noMerge h2 _ _ hroot1 hroot2 hne
+                (max_lt hr1 hr2) ((forbidden_false_iff s _ _).1 hf)
+            · exact h2
+      · split at ha
+        · simp only [List.mem_cons, List.not_mem_nil, or_false] at ha; subst ha
+          unfold cutGate at hat
+          split at hat
+          · cases hat
+          · simp only at hat
+            split at hat
+            · cases hat
+            · rename_i hne
+              injection hat with hat; subst hat
+              exact clause_inv2' s.root s.maxWires s.numWires s.noMerge h2 _ _ hr1 hr2 (by rw [hroot1, hroot2]; exact hne)
+        · cases ha
+      · split at ha
+        · simp only [List.mem_cons, List.not_mem_nil, or_false] at ha
+          rcases ha with rfl | rfl | rfl
+          · unfold cutLeft at hat
+            split at hat
+            · cases hat
+            · rename_i hcan
+              simp only at hat
+              split at hat
+              · cases hat
+              · rename_i hne
+                split at hat
+                · cases hat
+                · injection hat with hat; subst hat
+                  have hcan' : s.numWires + 1 ≤ s.maxWires := by simpa [St.canAddWires] using hcan
+                  have i1 := newWire_inv2' s.root s.maxWires s.numWires s.noMerge h2 hcan'
+                  have hfresh : rootL s.root s.numWires = s.numWires := h2.fresh_root _ (le_refl _)
+                  have i2 := merge_inv2' s.root s.maxWires (s.numWires + 1) s.noMerge i1 s.numWires (s.qroot (g.qubits.getD 1 0))
+                    hfresh hroot2 (by omega) (by rw [max_eq_left (le_of_lt hr2)]; omega)
+                    (by
+                      intro c hc hor
+                      have hc1 := (h2.clause_lt c hc)
+                      have l1 := h2.root_le c.1
+                      have l2 := h2.root_le c.2
+                      rcases hor with ⟨e, _⟩ | ⟨_, e⟩ <;> omega)
+                  have hm := rootL_merge s.root s.maxWires (s.numWires + 1) s.noMerge i1 s.numWires (s.qroot (g.qubits.getD 1 0))
+                  have hmax : max s.numWires (s.qroot (g.qubits.getD 1 0)) = s.numWires := max_eq_left (le_of_lt hr2)
+                  have hlt' : max s.numWires (s.qroot (g.qubits.getD 1 0)) < s.numWires + 1 := by rw [hmax]; omega
+                  refine clause_inv2' _ s.maxWires (s.numWires + 1) s.noMerge i2 _ _ (by omega) (by omega) ?_
+                  rw [hm _ hlt', hm _ hlt', hroot1, hroot2, hmax]
+                  have a1 : s.qroot (g.qubits.getD 0 0) ≠ s.numWires := by omega
+                  have a2 : s.qroot (g.qubits.getD 1 0) ≠ s.numWires := by omega
+                  simp only [a1, a2, if_false]
+                  exact hne
+          · unfold cutRight at hat
+            split at hat
+            · cases hat
+            · rename_i hcan
+              simp only at hat
+              split at hat
+              · cases hat
+              · rename_i hne
+                split at hat
+                · cases hat
+                · injection hat with hat; subst hat
+                  have hcan' : s.numWires + 1 ≤ s.maxWires := by simpa [St.canAddWires] using hcan
+                  have i1 := newWire_inv2' s.root s.maxWires s.numWires s.noMerge h2 hcan'
+                  have hfresh : rootL s.root s.numWires = s.numWires := h2.fresh_root _ (le_refl _)
+                  have i2 := merge_inv2' s.root s.maxWires (s.numWires + 1) s.noMerge i1 (s.qroot (g.qubits.getD 0 0)) s.numWires
+                    hroot1 hfresh (by omega) (by rw [max_eq_right (le_of_lt hr1)]; omega)
+                    (by
+                      intro c hc hor
+                      have hc1 := (h2.clause_lt c hc)
+                      have l1 := h2.root_le c.1
+                      have l2 := h2.root_le c.2
+                      rcases hor with ⟨_, e⟩ | ⟨e, _⟩ <;> omega)
+                  have hm := rootL_merge s.root s.maxWires (s.numWires + 1) s.noMerge i1 (s.qroot (g.qubits.getD 0 0)) s.numWires
+                  have hmax : max (s.qroot (g.qubits.getD 0 0)) s.numWires = s.numWires := max_eq_right (le_of_lt hr1)
+                  have hlt' : max (s.qroot (g.qubits.getD 0 0)) s.numWires < s.numWires + 1 := by rw [hmax]; omega
+                  refine clause_inv2' _ s.maxWires (s.numWires + 1) s.noMerge i2 _ _ (by omega) (by omega) ?_
+                  rw [hm _ hlt', hm _ hlt', hroot1, hroot2, hmax]
+                  have a1 : s.qroot (g.qubits.getD 0 0) ≠ s.numWires := by omega
+                  have a2 : s.qroot (g.qubits.getD 1 0) ≠ s.numWires := by omega
+                  simp only [a1, a2, if_false]
+                  exact hne
+          · unfold cutBoth at hat
+            split at hat
+            · cases hat
+            · rename_i hcan
+              split at hat
+              · cases hat
+              · simp only at hat
+                injection hat with hat; subst hat
+                have hcan' : s.numWires + 2 ≤ s.maxWires := by simpa [St.canAddWires] using hcan
+                have i1 := newWire_inv2' s.root s.maxWires s.numWires s.noMerge h2 (by omega)
+                have i1' := newWire_inv2' s.root s.maxWires (s.numWires + 1) s.noMerge i1 (by omega)
+                have hf1 : rootL s.root s.numWires = s.numWires := h2.fresh_root _ (le_refl _)
+                have hf2 : rootL s.root (s.numWires + 1) = s.numWires + 1 := h2.fresh_root _ (by omega)
+                have hmax : max s.numWires (s.numWires + 1) = s.numWires + 1 := max_eq_right (by omega)
+                have hmin : min s.numWires (s.numWires + 1) = s.numWires := min_eq_left (by omega)
+                have hlt' : max s.numWires (s.numWires + 1) < s.numWires + 1 + 1 := by rw [hmax]; omega
+                have i2 := merge_inv2' s.root s.maxWires (s.numWires + 1 + 1) s.noMerge i1' s.numWires (s.numWires + 1)
+                  hf1 hf2 (by omega) hlt'
+                  (by
+                    intro c hc hor
+                    have hc1 := (h2.clause_lt c hc)
+                    have l1 := h2.root_le c.1
+                    have l2 := h2.root_le c.2
+                    rcases hor with ⟨e, _⟩ | ⟨_, e⟩ <;> omega)
+                have hm := rootL_merge s.root s.maxWires (s.numWires + 1 + 1) s.noMerge i1' s.numWires (s.numWires + 1)
+                have c1 := clause_inv2' _ s.maxWires (s.numWires + 1 + 1) s.noMerge i2 (s.qroot (g.qubits.getD 0 0)) s.numWires
+                  (by omega) (by omega) (by
+                    rw [hm _ hlt', hm _ hlt', hroot1, hf1, hmax]
+                    have a1 : s.qroot (g.qubits.getD 0 0) ≠ s.numWires + 1 := by omega
+                    have a2 : s.numWires ≠ s.numWires + 1 := by omega
+                    simp only [a1, a2, if_false]; omega)
+                have c2 := clause_inv2' _ s.maxWires (s.numWires + 1 + 1) _ c1 (s.qroot (g.qubits.getD 1 0)) (s.numWires + 1)
+                  (by omega) (by omega) (by
+                    rw [hm _ hlt', hm _ hlt', hroot2, hf2, hmax, hmin]
+                    have a1 : s.qroot (g.qubits.getD 1 0) ≠ s.numWires + 1 := by omega
+                    simp only [a1, if_false, if_true]; omega)
+                simpa [Inv2, St.merge, St.newWire, List.append_assoc] using c2
+        · cases ha
+
+/-! ### T07.5 — the cut finder fails only when no placement of the permitted cuts can meet the width limit -/
+
+theorem argminCost_mem : ∀ (l : List St) (t : St), argminCost l = some t → t ∈ l := by
+  intro l
+  induction l with
+  | nil => intro t h; cases h
+  | cons a rest ih =>
+    intro t h
+    simp only [argminCost] at h
+    cases hr : argminCost rest with
+    | none => rw [hr] at h; injection h with h; subst h; simp
+    | some u =>
+      rw [hr] at h
+      simp only at h
+      split at h
+      · injection h with h; subst h; exact List.mem_cons_of_mem _ (ih u hr)
+      · injection h with h; subst h; simp
+
+theorem argminCost_none (l : List St) (h : argminCost l = none) : l = [] := by
+  cases l with
+  | nil => rfl
+  | cons a rest =>
+    simp only [argminCost] at h
+    cases hr : argminCost rest with
+    | none => rw [hr] at h; cases h
+    | some u => rw [hr] at h; simp only at h; split at h <;> cases h
+
+/-- with gate cuts permitted, a two-qubit gate that has a gamma always has a successor:
+either its qubits sit in different subcircuits (cut it) or in the same one (apply it) -/
+theorem progress_gate_cut (cfg : Settings) (gates : List Gate) (W : Nat) (s : St) (g : Gate) (x : Rat)
+    (h2 : Inv2 s) (hg : gates[s.level]? = some g) (hlen : g.qubits.length = 2) (hx : g.gamma = some x) (hlo : cfg.gateLO = true) :
+    ∃ ns, nextStates cfg gates W s = .ok ns ∧ ns ≠ [] := by
+  unfold nextStates
+  rw [hg]
+  simp only [hlen, ne_eq, not_true_eq_false, if_false]
+  refine ⟨_, rfl, ?_⟩
+  by_cases hr : s.qroot (g.qubits.getD 0 0) = s.qroot (g.qubits.getD 1 0)
+  · -- apply
+    have hap : ∃ t, applyGate s g W = some t := by
+      unfold applyGate
+      simp only [hr, ne_eq, not_true_eq_false, false_and, if_false, forbidden_self s h2]
+      exact ⟨_, rfl⟩
+    obtain ⟨t, ht⟩ := hap
+    intro hnil
+    have : t ∈ (actionList cfg).filterMap fun a => a s g W :=
+      List.mem_filterMap.2 ⟨applyGate, by simp [actionList], ht⟩
+    rw [hnil] at this; cases this
+  · have hcut : ∃ t, cutGate s g W = some t := by
+      unfold cutGate
+      simp only [hx, hr, if_false]
+      exact ⟨_, rfl⟩
+    obtain ⟨t, ht⟩ := hcut
+    intro hnil
+    have : t ∈ (actionList cfg).filterMap fun a => a s g W :=
+      List.mem_filterMap.2 ⟨cutGate, by simp [actionList, hlo], ht⟩
+    rw [hnil] at this; cases this
+
+/-- the greedy pass never dead-ends when gate cuts are permitted and every multi-qubit gate is a two-qubit gate with a gamma -/
+theorem greedy_some_gate_cut (cfg : Settings) (gates : List Gate) (W n : Nat) (hlo : cfg.gateLO = true)
+    (hn : (gates.map (·.idx)).Nodup)
+    (hq : ∀ g ∈ gates, g.qubits.getD 0 0 < n ∧ g.qubits.getD 1 0 < n)
+    (hgates : ∀ g ∈ gates, g.qubits.length = 2 ∧ ∃ x, g.gamma = some x) :
+    ∀ (fuel : Nat) (s : St), Inv W n s → Inv2 s → gates.length ≤ s.level + fuel →
+      ∃ t, greedy cfg gates W fuel s = .ok (some t) := by
+  intro fuel
+  induction fuel with
+  | zero =>
+    intro s _ _ hl
+    have : isGoal gates s = true := by simp [isGoal]; omega
+    exact ⟨s, by simp [greedy, this]⟩
+  | succ fuel ih =>
+    intro s hi h2 hl
+    unfold greedy
+    by_cases hgoal : isGoal gates s = true
+    · exact ⟨s, by simp [hgoal]⟩
+    · simp only [hgoal, if_false]
+      have hlev : s.level < gates.length := by simpa [isGoal] using hgoal
+      have hg : gates[s.level]? = some gates[s.level] := List.getElem?_eq_getElem hlev
+      obtain ⟨hlen, x, hx⟩ := hgates _ (List.getElem_mem hlev)
+      obtain ⟨ns, hns, hne⟩ := progress_gate_cut cfg gates W s _ x h2 hg hlen hx hlo
+      rw [hns]
+      simp only [bind, Except.bind]
+      cases ha : argminCost ns with
+      | none => exact absurd (argminCost_none ns ha) hne
+      | some t =>
+        simp only
+        have htm := argminCost_mem ns t ha
+        have hlvl := (step_accounting cfg gates W hn s t ns hns htm).2
+        exact ih t (step_inv cfg gates W n hq s t ns hi hns htm) (step_inv2 cfg gates W n hq s t ns hi h2 hns htm) (by omega)
+
+theorem nextStates_ok (cfg : Settings) (gates : List Gate) (W : Nat) (hgates : ∀ g ∈ gates, g.qubits.length = 2) (s : St) :
+    ∃ ns, nextStates cfg gates W s = .ok ns := by
+  unfold nextStates
+  cases hg : gates[s.level]? with
+  | none => exact ⟨_, rfl⟩
+  | some g =>
+    have := hgates g (List.mem_of_getElem? hg)
+    simp only [this, ne_eq, not_true_eq_false, if_false]
+    exact ⟨_, rfl⟩
+
+theorem loop_ok {S : Type} (f : Fns S) (hnext : ∀ s, ∃ ns, f.next s = .ok ns) (mincost : Option Rat) (maxBJ : Option Nat) :
+    ∀ (fuel : Nat) (q : Search S) (prev : Option Nat), ∃ r, Search.loop f mincost maxBJ fuel q prev = .ok r := by
+  intro fuel
+  induction fuel with
+  | zero => intro q prev; exact ⟨_, rfl⟩
+  | succ fuel ih =>
+    intro q prev
+    unfold Search.loop
+    split
+    · exact ⟨_, rfl⟩
+    · rename_i k s rest _
+      split
+      · exact ⟨_, rfl⟩
+      · simp only
+        split
+        · exact ⟨_, rfl⟩
+        · split
+          · exact ⟨_, rfl⟩
+          · obtain ⟨ns, hns⟩ := hnext s
+            rw [hns]
+            simp only [bind, Except.bind]
+            exact ih _ _
+
+theorem pass_ok {S : Type} (f : Fns S) (hnext : ∀ s, ∃ ns, f.next s = .ok ns) (mincost : Option Rat) (maxBJ : Option Nat)
+    (fuel : Nat) (q : Search S) : ∃ r, Search.pass f mincost maxBJ fuel q = .ok r := by
+  unfold Search.pass
+  obtain ⟨⟨q1, r1⟩, h⟩ := loop_ok f hnext mincost maxBJ fuel q none
+  rw [h]
+  simp only [bind, Except.bind]
+  cases r1 <;> exact ⟨_, rfl⟩
+
+theorem passes_ok (f : Fns St) (hnext : ∀ s, ∃ ns, f.next s = .ok ns) (cfg : Settings) (g : St) (fuel : Nat) :
+    ∀ (n : Nat) (q : Search St) (returned : Bool) (out : List (Rat × St)), (returned = true → out ≠ []) →
+      ∃ q' out', passes f cfg (some g) fuel n q returned out = .ok (q', out') ∧ (out ≠ [] → out' ≠ []) ∧ (1 ≤ n → out' ≠ []) := by
+  intro n
+  induction n with
+  | zero => intro q returned out _; exact ⟨q, out, rfl, fun h => h, fun h => by omega⟩
+  | succ n ih =>
+    intro q returned out hret
+    simp only [passes]
+    obtain ⟨⟨q1, r1⟩, hp⟩ := pass_ok f hnext (some cfg.maxGamma) cfg.maxBackjumps fuel q
+    rw [hp]
+    simp only [bind, Except.bind]
+    cases r1 with
+    | some sc =>
+      obtain ⟨s, c⟩ := sc
+      simp only
+      obtain ⟨q', out', h1, h2, _⟩ := ih q1 true (out ++ [(c, s)]) (fun _ => by simp)
+      exact ⟨q', out', h1, fun _ => h2 (by simp), fun _ => h2 (by simp)⟩
+    | none =>
+      simp only
+      cases returned with
+      | true =>
+        simp only [Bool.not_true, Bool.false_eq_true, if_false]
+        exact ⟨q1, out, rfl, fun h => h, fun _ => hret rfl⟩
+      | false =>
+        simp only [Bool.not_false, if_true]
+        obtain ⟨q', out', h1, h2, _⟩ := ih q1 true (out ++ [(g.gammaUB, g)]) (fun _ => by simp)
+        exact ⟨q', out', h1, fun _ => h2 (by simp), fun _ => h2 (by simp)⟩
+
+theorem firstMin_some (out : List (Rat × St)) (h : out ≠ []) : ∃ b, firstMin out = some b := by
+  cases out with
+  | nil => exact absurd rfl h
+  | cons x rest =>
+    simp only [firstMin]
+    cases firstMin rest with
+    | none => exact ⟨_, rfl⟩
+    | some y => simp only; split <;> exact ⟨_, rfl⟩
+
+/-- **T07.5 (gate cuts permitted)**: if every multi-qubit gate of the circuit is a two-qubit gate with a gamma and gate cuts
+are permitted, the optimiser never fails, for any width limit ≥ 1, any limits, seed stream and fuel ≥ 1 — indeed a placement
+always exists then (cut every gate whose qubits are still apart). -/
+theorem optimize_never_fails_gate_cut (cfg : Settings) (gates : List Gate) (numQubits W : Nat) (rnds : List Rat) (fuel : Nat)
+    (hW : 1 ≤ W) (hfuel : 1 ≤ fuel) (hlo : cfg.gateLO = true) (hn : (gates.map (·.idx)).Nodup)
+    (hq : ∀ g ∈ gates, g.qubits.getD 0 0 < numQubits ∧ g.qubits.getD 1 0 < numQubits)
+    (hgates : ∀ g ∈ gates, g.qubits.length = 2 ∧ ∃ x, g.gamma = some x) :
+    ∃ r, optimize cfg gates numQubits W rnds fuel = .ok r := by
+  unfold optimize
+  simp only [bind, Except.bind]
+  obtain ⟨g0, hg0⟩ := greedy_some_gate_cut cfg gates W numQubits hlo hn hq hgates (gates.length + 1)
+    (St.init numQubits (gates.map (·.qubits.length)).sum) (init_inv W numQubits _ hW) (init_inv2 _ _) (by simp [St.init])
+  rw [hg0]
+  simp only
+  have hnext : ∀ s, ∃ ns, (searchFns cfg gates W).next s = .ok ns := fun s => nextStates_ok cfg gates W (fun g hg => (hgates g hg).1) s
+  obtain ⟨q', out', h1, _, h3⟩ := passes_ok (searchFns cfg gates W) hnext cfg g0 fuel fuel
+    (startSearch (searchFns cfg gates W) (St.init numQubits (wireBudget cfg (gates.map (·.qubits.length)).sum (some g0))) (some g0) rnds)
+    false [] (fun h => by cases h)
+  rw [h1]
+  simp only
+  obtain ⟨b, hb⟩ := firstMin_some out' (h3 hfuel)
+  rw [hb]
+  exact ⟨_, rfl⟩
+
+
+/-- every action keeps the wire budget and allocates at most two wires -/
+theorem step_budget (cfg : Settings) (gates : List Gate) (W : Nat) (s t : St) (ns : List St)
+    (h : nextStates cfg gates W s = .ok ns) (ht : t ∈ ns) :
+    t.maxWires = s.maxWires ∧ t.numWires ≤ s.numWires + 2 ∧ t.level = s.level + 1 := by
+  unfold nextStates at h
+  cases hg : gates[s.level]? with
+  | none => rw [hg] at h; injection h with h; subst h; cases ht
+  | some g =>
+    rw [hg] at h
+    simp only at h
+    split at h
+    · cases h
+    · injection h with h; subst h
+      simp only [List.mem_filterMap] at ht
+      obtain ⟨a, ha, hat⟩ := ht
+      simp only [actionList, List.mem_append, List.mem_cons, List.not_mem_nil, or_false] at ha
+      rcases ha with (rfl | ha) | ha
+      · unfold applyGate at hat
+        simp only at hat
+        split at hat
+        · cases hat
+        · split at hat
+          · cases hat
+          · injection hat with hat; subst hat
+            split <;> simp [St.merge]
+      · split at ha
+        · simp only [List.mem_cons, List.not_mem_nil, or_false] at ha; subst ha
+          unfold cutGate at hat
+          split at hat
+          · cases hat
+          · simp only at hat
+            split at hat
+            · cases hat
+            · injection hat with hat; subst hat; simp
+        · cases ha
+      · split at ha
+        · simp only [List.mem_cons, List.not_mem_nil, or_false] at ha
+          rcases ha with rfl | rfl | rfl
+          · unfold cutLeft at hat
+            split at hat
+            · cases hat
+            · simp only at hat
+              split at hat
+              · cases hat
+              · split at hat
+                · cases hat
+                · injection hat with hat; subst hat; simp [St.merge, St.newWire]
+          · unfold cutRight at hat
+            split at hat
+            · cases hat
+            · simp only at hat
+              split at hat
+              · cases hat
+              · split at hat
+                · cases hat
+                · injection hat with hat; subst hat; simp [St.merge, St.newWire]
+          · unfold cutBoth at hat
+            split at hat
+            · cases hat
+            · split at hat
+              · cases hat
+              · simp only at hat
+                injection hat with hat; subst hat; simp [St.merge, St.newWire]
+        · cases ha
+
+/-- with wire cuts permitted and a width limit of at least two, cutting both input wires is always possible while the
+wire budget lasts -/
+theorem progress_wire_cut (cfg : Settings) (gates : List Gate) (W : Nat) (s : St) (g : Gate)
+    (hg : gates[s.level]? = some g) (hlen : g.qubits.length = 2) (hlo : cfg.wireLO = true) (hW : 2 ≤ W)
+    (hb : s.numWires + 2 ≤ s.maxWires) : ∃ ns, nextStates cfg gates W s = .ok ns ∧ ns ≠ [] := by
+  unfold nextStates
+  rw [hg]
+  simp only [hlen, ne_eq, not_true_eq_false, if_false]
+  refine ⟨_, rfl, ?_⟩
+  have hcut : ∃ t, cutBoth s g W = some t := by
+    unfold cutBoth
+    have h1 : s.canAddWires 2 = true := by simpa [St.canAddWires] using hb
+    have h2 : ¬ W < 2 := by omega
+    simp only [h1, Bool.not_true, Bool.false_eq_true, if_false, h2]
+    exact ⟨_, rfl⟩
+  obtain ⟨t, ht⟩ := hcut
+  intro hnil
+  have : t ∈ (actionList cfg).filterMap fun a => a s g W :=
+    List.mem_filterMap.2 ⟨cutBoth, by simp [actionList, hlo], ht⟩
+  rw [hnil] at this; cases this
+
+theorem greedy_some_wire_cut (cfg : Settings) (gates : List Gate) (W n : Nat) (hlo : cfg.wireLO = true) (hW : 2 ≤ W)
+    (hgates : ∀ g ∈ gates, g.qubits.length = 2) :
+    ∀ (fuel : Nat) (s : St), s.maxWires = n + 2 * gates.length → s.numWires ≤ n + 2 * s.level → gates.length ≤ s.level + fuel →
+      ∃ t, greedy cfg gates W fuel s = .ok (some t) := by
+  intro fuel
+  induction fuel with
+  | zero =>
+    intro s _ _ hl
+    have : isGoal gates s = true := by simp [isGoal]; omega
+    exact ⟨s, by simp [greedy, this]⟩
+  | succ fuel ih =>
+    intro s hm hnw hl
+    unfold greedy
+    by_cases hgoal : isGoal gates s = true
+    · exact ⟨s, by simp [hgoal]⟩
+    · simp only [hgoal]
+      have hlev : s.level < gates.length := by simpa [isGoal] using hgoal
+      have hg : gates[s.level]? = some gates[s.level] := List.getElem?_eq_getElem hlev
+      have hlen := hgates _ (List.getElem_mem hlev)
+      obtain ⟨ns, hns, hne⟩ := progress_wire_cut cfg gates W s _ hg hlen hlo hW (by omega)
+      rw [hns]
+      simp only [bind, Except.bind]
+      cases ha : argminCost ns with
+      | none => exact absurd (argminCost_none ns ha) hne
+      | some t =>
+        simp only
+        have htm := argminCost_mem ns t ha
+        obtain ⟨b1, b2, b3⟩ := step_budget cfg gates W s t ns hns htm
+        exact ih t (by rw [b1, hm]) (by omega) (by omega)
+
+/-- **T07.5 (wire cuts permitted, width limit ≥ 2)**: the optimiser never fails either — cutting both input wires of
+every gate is always a placement -/
+theorem optimize_never_fails_wire_cut (cfg : Settings) (gates : List Gate) (numQubits W : Nat) (rnds : List Rat) (fuel : Nat)
+    (hW : 2 ≤ W) (hfuel : 1 ≤ fuel) (hlo : cfg.wireLO = true) (hgates : ∀ g ∈ gates, g.qubits.length = 2) :
+    ∃ r, optimize cfg gates numQubits W rnds fuel = .ok r := by
+  unfold optimize
+  simp only [bind, Except.bind]
+  have hsum : (gates.map (·.qubits.length)).sum = 2 * gates.length := by
+    clear hfuel hlo hW
+    induction gates with
+    | nil => rfl
+    | cons g rest ih =>
+      simp only [List.map_cons, List.sum_cons, List.length_cons]
+      rw [ih (fun g' hg' => hgates g' (List.mem_cons_of_mem _ hg')), hgates g (by simp)]; omega
+  obtain ⟨g0, hg0⟩ := greedy_some_wire_cut cfg gates W numQubits hlo hW hgates (gates.length + 1)
+    (St.init numQubits (gates.map (·.qubits.length)).sum) (by simp [St.init, hsum]) (by simp [St.init]) (by simp [St.init])
+  rw [hg0]
+  simp only
+  have hnext : ∀ s, ∃ ns, (searchFns cfg gates W).next s = .ok ns := fun s => nextStates_ok cfg gates W hgates s
+  obtain ⟨q', out', h1, _, h3⟩ := passes_ok (searchFns cfg gates W) hnext cfg g0 fuel fuel
+    (startSearch (searchFns cfg gates W) (St.init numQubits (wireBudget cfg (gates.map (·.qubits.length)).sum (some g0))) (some g0) rnds)
+    false [] (fun h => by cases h)
+  rw [h1]
+  simp only
+  obtain ⟨b, hb⟩ := firstMin_some out' (h3 hfuel)
+  rw [hb]
+  exact ⟨_, rfl⟩
+
+/-- conversely the only error the optimiser itself can produce (all gates two-qubit) is "no state found", and only when
+the greedy pass dead-ended -/
+theorem optimize_error_only_if_greedy_none (cfg : Settings) (gates : List Gate) (numQubits W : Nat) (rnds : List Rat) (fuel : Nat)
+    (hfuel : 1 ≤ fuel) (hgates : ∀ g ∈ gates, g.qubits.length = 2) (e : Err)
+    (h : optimize cfg gates numQubits W rnds fuel = .error e) :
+    greedy cfg gates W (gates.length + 1) (St.init numQubits (gates.map (·.qubits.length)).sum) = .ok none := by
+  unfold optimize at h
+  simp only [bind, Except.bind] at h
+  cases hg : greedy cfg gates W (gates.length + 1) (St.init numQubits (gates.map (·.qubits.length)).sum) with
+  | error e' =>
+    -- greedy cannot raise: nextStates never does
+    exfalso
+    have : ∀ (fuel : Nat) (s : St), ∃ r, greedy cfg gates W fuel s = .ok r := by
+      intro fuel
+      induction fuel with
+      | zero => intro s; exact ⟨_, rfl⟩
+      | succ fuel ih =>
+        intro s
+        unfold greedy
+        split
+        · exact ⟨_, rfl⟩
+        · obtain ⟨ns, hns⟩ := nextStates_ok cfg gates W hgates s
+          rw [hns]; simp only [bind, Except.bind]
+          cases argminCost ns with
+          | none => exact ⟨_, rfl⟩
+          | some t => exact ih t
+    obtain ⟨r, hr⟩ := this (gates.length + 1) (St.init numQubits (gates.map (·.qubits.length)).sum)
+    rw [hr] at hg; cases hg
+  | ok g0 =>
+    cases g0 with
+    | none => rfl
+    | some g1 =>
+      exfalso
+      rw [hg] at h
+      simp only at h
+      have hnext : ∀ s, ∃ ns, (searchFns cfg gates W).next s = .ok ns := fun s => nextStates_ok cfg gates W hgates s
+      obtain ⟨q', out', h1, _, h3⟩ := passes_ok (searchFns cfg gates W) hnext cfg g1 fuel fuel
+        (startSearch (searchFns cfg gates W) (St.init numQubits (wireBudget cfg (gates.map (·.qubits.length)).sum (some g1))) (some g1) rnds)
+        false [] (fun h => by cases h)
+      rw [h1] at h
+      simp only at h
+      obtain ⟨b, hb⟩ := firstMin_some out' (h3 hfuel)
+      rw [hb] at h
+      cases h
+
+
+theorem path_cases (cfg : Settings) (gates : List Gate) (W : Nat) (s g : St) (h : Path cfg gates W s g) :
+    g = s ∨ ∃ ns c, nextStates cfg gates W s = .ok ns ∧ c ∈ ns ∧ Path cfg gates W c g := by
+  induction h with
+  | refl => exact Or.inl rfl
+  | step t u ns _ hnext hu ih =>
+    rcases ih with rfl | ⟨ns', c, h1, h2, h3⟩
+    · exact Or.inr ⟨ns, u, hnext, hu, Path.refl u⟩
+    · exact Or.inr ⟨ns', c, h1, h2, Path.step c t u ns h3 hnext hu⟩
+
+/-- **T07.5 (no cuts permitted)**: the search tree is a single path; if the greedy pass dead-ends, no goal state exists at all
+(the uncut circuit does not fit the width limit), so refusing is the only correct answer -/
+theorem greedy_none_no_cuts (cfg : Settings) (gates : List Gate) (W : Nat) (hg : cfg.gateLO = false) (hw : cfg.wireLO = false) :
+    ∀ (fuel : Nat) (s : St), gates.length ≤ s.level + fuel → greedy cfg gates W fuel s = .ok none →
+      ∀ t, Path cfg gates W s t → isGoal gates t = false := by
+  intro fuel
+  induction fuel with
+  | zero =>
+    intro s hl h
+    have : isGoal gates s = true := by simp [isGoal]; omega
+    simp [greedy, this] at h
+  | succ fuel ih =>
+    intro s hl h t hp
+    unfold greedy at h
+    by_cases hgoal : isGoal gates s = true
+    · simp [hgoal] at h
+    · simp only [hgoal] at h
+      cases hns : nextStates cfg gates W s with
+      | error e => rw [hns] at h; simp [bind, Except.bind] at h
+      | ok ns =>
+        rw [hns] at h
+        simp only [bind, Except.bind] at h
+        -- at most one successor: only `apply` is available
+        have hone : ns.length ≤ 1 := by
+          unfold nextStates at hns
+          cases hgt : gates[s.level]? with
+          | none => rw [hgt] at hns; injection hns with hns; subst hns; simp
+          | some g =>
+            rw [hgt] at hns
+            simp only at hns
+            split at hns
+            · cases hns
+            · injection hns with hns; subst hns
+              simp only [actionList, hg, hw, Bool.false_eq_true, if_false, List.append_nil]
+              exact le_trans (List.length_filterMap_le _ _) (by simp)
+        rcases path_cases cfg gates W s t hp with rfl | ⟨ns', c, h1, h2, h3⟩
+        · simpa using hgoal
+        · rw [hns] at h1; injection h1 with h1; subst h1
+          cases ha : argminCost ns with
+          | none => rw [argminCost_none ns ha] at h2; cases h2
+          | some u =>
+            rw [ha] at h
+            simp only at h
+            have hu := argminCost_mem ns u ha
+            have hcu : c = u := by
+              match ns, hone, h2, hu with
+              | [x], _, h2, hu => simp at h2 hu; rw [h2, hu]
+            subst hcu
+            have hlvl := (step_budget cfg gates W s c ns hns hu).2.2
+            exact ih c (by omega) h t h3
+
+
 end CKT.C07
